@@ -102,7 +102,150 @@ def build_T4o(tree):
     return t1 + '\n\n' + t2, span_sha([occ]) + span_sha([sto])[:8]
 
 
+# ---------------------------------------------------------------------------------------------------------------
+# Bridges ("more of the code inside the model"): expressions of the hand-modelled loops / glue, regenerated
+import re as _re
+
+
+def build_T5w(tree):
+    """The WHERE clause of the tiled-region query as a Lean predicate, GENERATED from the f-string pieces of the current
+    source (column, comparison operator, placeholder) instead of being pinned as text."""
+    fn = find_func(tree, '_Image._iterate_indices_for_tiled_region')
+    where = None
+    for node in ast.walk(fn):
+        if isinstance(node, ast.Assign) and isinstance(node.targets[0], ast.Name) and node.targets[0].id == 'query_template':
+            where = ''.join(ast.unparse(node.value).split())
+    if where is None:
+        raise Unsupported('query_template not found')
+    m = _re.search(r"WHERE\((.*)\{filter_str\.replace\('WHERE','AND'\)\}\)", where)
+    if not m:
+        raise Unsupported('WHERE ( ... {filter_str...} ) not found in the query template')
+    conds = m.group(1).split('AND')
+    cols = {'L.RowPositionInTotalImagePixelMatrix': 'rp', 'L.ColumnPositionInTotalImagePixelMatrix': 'cp'}
+    known = ['row_offset_start', 'row_end', 'column_offset_start', 'column_end', 'row_start', 'column_start']
+    ops = {'>=': '≥', '<=': '≤', '<': '<', '>': '>', '=': '='}
+    terms = []
+    for c in conds:
+        mm = _re.fullmatch(r"(L\.\w+)(>=|<=|<|>|=)\{(\w+)\}", c)
+        if not mm or mm.group(1) not in cols or mm.group(3) not in known:
+            raise Unsupported('condition of the tiled-region WHERE clause outside the fragment: ' + c[:80])
+        terms.append(f"decide ({cols[mm.group(1)]} {ops[mm.group(2)]} {mm.group(3)})")
+    if not terms:
+        raise Unsupported('empty WHERE clause')
+    params = ' '.join(f'({k} : Int)' for k in ['rp', 'cp'] + known)
+    text = ("/-- the WHERE clause of the region query of `_iterate_indices_for_tiled_region`, generated from the f-string pieces of the "
+            "query template (a row of the frame table at 1-based position (rp, cp) is fetched iff this is true) -/\n"
+            f"def tiledRegionWhere {params} : Except ErrKind Bool :=\n  .ok (" + ' && '.join(terms) + ")")
+    return text, hashlib.sha256(where.encode()).hexdigest()
+
+
+def build_T5g(tree):
+    """The missing-frame test of `_iterate_indices_for_tiled_region`: when it is made (flags, organisation) and what it compares."""
+    fn = find_func(tree, '_Image._iterate_indices_for_tiled_region')
+    body = strip_doc(fn.body)
+    first = body[0]
+    if not (isinstance(first, ast.If) and _norm(first.test) == 'allow_missing_values' and len(first.body) == 1
+            and _norm(first.body[0]) == 'allow_missing_combinations=True' and not first.orelse):
+        raise Unsupported('`if allow_missing_values: allow_missing_combinations = True` is no longer the first statement')
+    guard = None
+    for node in ast.walk(fn):
+        if isinstance(node, ast.If) and 'allow_missing_combinations' in ast.unparse(node.test) and 'DimensionOrganizationType' in ast.unparse(node.test):
+            guard = node
+    if guard is None:
+        raise Unsupported('guard of the missing-frame test not found')
+    num = [st for st in guard.body if isinstance(st, ast.Assign) and _norm(st.targets[0]) == 'number_of_output_frames']
+    cmp_ = [st for st in guard.body if isinstance(st, ast.If) and 'found_number' in ast.unparse(st.test)]
+    if len(num) != 1 or len(cmp_) != 1 or not any(isinstance(x, ast.Raise) for x in cmp_[0].body):
+        raise Unsupported('missing-frame test: `number_of_output_frames = ...` / `if found_number ...: raise` not found')
+    # the per-channel factor `number_of_output_frames *= len(tdef.column_data)` is 1 for a query without channel tables
+    txt = ''.join(_norm(st) for st in guard.body)
+    if 'fortdefinchannel_table_defs:number_of_output_frames*=len(tdef.column_data)' not in txt:
+        raise Unsupported('missing-frame test: the per-channel factor changed')
+    new_guard = ast.If(test=guard.test, body=[num[0], cmp_[0]], orelse=[])
+    block = [ast.parse(ast.unparse(st)).body[0] for st in [first, new_guard]] + [ast.parse('return True').body[0]]
+    for st in block:
+        ast.fix_missing_locations(st)
+    attrs = {"self.get('DimensionOrganizationType', '')": ('str', 'dimensionOrganizationType')}
+    text = translate_block(block, 'missingFrameTest',
+                           [('allow_missing_values', 'bool'), ('allow_missing_combinations', 'bool'), ('v_frames', 'int'),
+                            ('h_frames', 'int'), ('found_number', 'int')], attrs,
+                           doc='`_iterate_indices_for_tiled_region`: the missing-frame test for a query without channel tables '
+                               '(RuntimeError = refused; ok = the read goes on)')
+    return text, span_sha([first, guard])
+
+
+def _kwcall(call, want):
+    kws = {k.arg: k.value for k in call.keywords}
+    if sorted(kws) != sorted(want):
+        raise Unsupported(f'get_tile_array call: keywords {sorted(kws)} instead of {sorted(want)}')
+    return ast.Return(value=ast.Tuple(elts=[kws[k] for k in want], ctx=ast.Load()))
+
+
+def build_T4c(tree):
+    """Argument forwarding of the two `get_tile_array` calls of the Segmentation constructor path: the emptiness scan
+    (`_get_nonempty_tile_indices`) and the tiling loop of `__init__` (both organisation branches)."""
+    cls = find_func(tree, 'Segmentation')
+    want = ['row_offset', 'column_offset', 'tile_rows', 'tile_columns']
+    ne = find_func(cls, '_get_nonempty_tile_indices')
+    calls = [n for n in ast.walk(ne) if isinstance(n, ast.Call) and _norm(n.func) == 'get_tile_array']
+    if len(calls) != 1 or len(calls[0].args) != 1 or _norm(calls[0].args[0]) != 'pixel_array[0]':
+        raise Unsupported('_get_nonempty_tile_indices: single call get_tile_array(pixel_array[0], ...) not found')
+    comp = [n for n in ast.walk(ne) if isinstance(n, ast.ListComp)]
+    if len(comp) != 1 or _norm(comp[0].generators[0].target) != '(i,pos)' or _norm(comp[0].generators[0].iter) != 'enumerate(plane_positions)' \
+            or _norm(comp[0].elt) != 'i' or not _norm(comp[0].generators[0].ifs[0]).startswith('np.any(get_tile_array('):
+        raise Unsupported('_get_nonempty_tile_indices: `[i for i, pos in enumerate(plane_positions) if np.any(get_tile_array(...))]` changed')
+    b1 = [_kwcall(calls[0], want)]
+    ast.fix_missing_locations(b1[0])
+    t1 = translate_block([ast.parse(ast.unparse(b1[0])).body[0]], 'nonemptyTileCall', [('rows', 'int'), ('columns', 'int')],
+                         {'pos[0].RowPositionInTotalImagePixelMatrix': ('int', 'rowPos'),
+                          'pos[0].ColumnPositionInTotalImagePixelMatrix': ('int', 'colPos')},
+                         doc='`_get_nonempty_tile_indices`: (row_offset, column_offset, tile_rows, tile_columns) handed to get_tile_array '
+                             'for the plane position (rowPos, colPos)')
+    init = find_func(cls, '__init__')
+    calls = [n for n in ast.walk(init) if isinstance(n, ast.Call) and _norm(n.func) == 'get_tile_array']
+    if len(calls) != 1 or len(calls[0].args) != 1 or _norm(calls[0].args[0]) != 'pixel_array[0]':
+        raise Unsupported('Segmentation.__init__: single call get_tile_array(pixel_array[0], ...) not found')
+    b2 = _kwcall(calls[0], want)
+    t2 = translate_block([ast.parse(ast.unparse(ast.fix_missing_locations(b2))).body[0]], 'ctorTileCall',
+                         [('row_offset', 'int'), ('column_offset', 'int')],
+                         {'self.Rows': ('int', 'tileRows'), 'self.Columns': ('int', 'tileCols')},
+                         doc='`Segmentation.__init__`, tiling loop: (row_offset, column_offset, tile_rows, tile_columns) handed to get_tile_array')
+    # where row_offset / column_offset come from, per organisation
+    txt = ''.join(ast.unparse(init).split())
+    for needle in ("row_dim_index=plane_position_names.index('RowPositionInTotalImagePixelMatrix')",
+                   "col_dim_index=plane_position_names.index('ColumnPositionInTotalImagePixelMatrix')",
+                   "plane_position_values=plane_position_values[:,[1,0,2,3,4]]",
+                   "plane_position_values=np.array([[*offsets,*coords]foroffsets,coordsinraw_plane_positions])",
+                   "pos=plane_positions[plane_index][0]"):
+        if needle not in txt:
+            raise Unsupported('Segmentation.__init__: source of the tile offsets changed (missing ' + needle + ')')
+    iff = None
+    for node in ast.walk(init):
+        if isinstance(node, ast.If) and any(isinstance(st, ast.Assign) and _norm(st.targets[0]) == 'row_offset' for st in node.body) \
+                and 'TILED_FULL' in ast.unparse(node.test):
+            iff = node
+    if iff is None:
+        raise Unsupported('Segmentation.__init__: branch assigning row_offset / column_offset not found')
+    out = []
+    for name, stmts, attrs in [
+            ('ctorTileOffsetsFull', iff.body, {'plane_position_values[plane_index, row_dim_index]': ('int', 'rowPos'),
+                                               'plane_position_values[plane_index, col_dim_index]': ('int', 'colPos')}),
+            ('ctorTileOffsetsSparse', iff.orelse, {'pos.RowPositionInTotalImagePixelMatrix': ('int', 'rowPos'),
+                                                   'pos.ColumnPositionInTotalImagePixelMatrix': ('int', 'colPos')})]:
+        asg = [st for st in stmts if isinstance(st, ast.Assign) and _norm(st.targets[0]) in ('row_offset', 'column_offset')]
+        if len(asg) != 2:
+            raise Unsupported(f'{name}: assignments to row_offset / column_offset not found')
+        blk = [ast.parse(ast.unparse(st)).body[0] for st in asg] + [ast.parse('return (row_offset, column_offset)').body[0]]
+        out.append(translate_block(blk, name, [], attrs,
+                                   doc=f'`Segmentation.__init__`, tiling loop ({"TILED_FULL" if name.endswith("Full") else "other organisations"}): '
+                                       '(row_offset, column_offset) of the tile from the plane position (rowPos, colPos)'))
+    return '\n\n'.join([t1, t2] + out), span_sha([calls[0]]) + hashlib.sha256(txt.encode()).hexdigest()[:8]
+
+
 TARGETS = {
     'T6': {'file': 'spatial.py', 'build': build_T6},
     'T4o': {'file': 'seg/sop.py', 'build': build_T4o, 'imports': ['HdVerif.Model.Round']},
+    'T5w': {'file': 'image.py', 'build': build_T5w},
+    'T5g': {'file': 'image.py', 'build': build_T5g},
+    'T4c': {'file': 'seg/sop.py', 'build': build_T4c},
 }
